@@ -135,6 +135,10 @@ class Exemptions:
                 return False
             if isinstance(e, ast.Attribute) and e.attr in ("TIMEZONE", "TO_TIMEZONE"):
                 return True
+            if isinstance(e, ast.BoolOp):
+                return all(ok_expr(v, f, depth + 1) for v in e.values)
+            if isinstance(e, ast.IfExp):
+                return ok_expr(e.body, f, depth + 1) and ok_expr(e.orelse, f, depth + 1)
             if isinstance(e, ast.Name):
                 if e.id in f.params():
                     return ok_param(f, e.id, depth + 1)
@@ -319,7 +323,7 @@ class Exemptions:
         if exc == "AssertionError" and fk == "dateparser.parser:_parser._correct_for_time_frame":
             if self.pre("naive", self._params_naive):
                 return "dateobj is built by datetime(**params) without tzinfo, so the asserted condition holds"
-        if exc == "AttributeError" and fk == "dateparser.utils.strptime:strptime" and "MS_SEARCHER" in txt:
+        if exc == "AttributeError" and fk == "dateparser.utils.strptime:strptime" and self._from_ms_searcher(site):
             if self.pre("dotf", self._f_formats_dotted):
                 return "every literal %f format spells '.%f', so a successful strptime implies '.<digits>' is present"
         if exc == "ValueError" and fk in ("dateparser.utils:set_correct_day_from_settings",
@@ -463,6 +467,15 @@ class Exemptions:
                 if ts and all(t == "C:dateparser.conf:Settings" for t in ts):
                     return "internal call passes a Settings instance: apply_settings' type check cannot fail"
         return None
+
+    def _from_ms_searcher(self, site):
+        """the possibly-None match object comes (as the last alternative) from MS_SEARCHER.search(<the date string>)"""
+        from ..core.effects import _regexes_of_match
+        n = site.node
+        if not (isinstance(n, ast.Call) and isinstance(n.func, ast.Attribute)):
+            return False
+        names = _regexes_of_match(self.ix, site.fn, n.func.value)
+        return bool(names) and names[-1] == "MS_SEARCHER"
 
     def _year_directives_listed(self):
         f = self.ix.funcs.get("dateparser.utils:_get_missing_parts")
